@@ -57,7 +57,11 @@ func (f Child) remove(value any) (out any, changed bool) {
 			// Can't remove a field from a struct so only a map can be modified.
 			if rt.Kind() == reflect.Map {
 				rv := reflect.ValueOf(value)
-				rk := reflect.ValueOf(key)
+				if rt.Key().Kind() != reflect.String {
+					return
+				}
+				// The key type might be a defined string type.
+				rk := reflect.ValueOf(key).Convert(rt.Key())
 				if rv.MapIndex(rk).IsValid() {
 					rv.SetMapIndex(rk, reflect.Value{})
 					changed = true
